@@ -13,18 +13,22 @@ EXTENDS Integers, Sequences, FiniteSets, TLC
 CONSTANTS Modes, Prio,      \* mode names, Prio[m] configured priority
           Auto,             \* set of <<m, event, target, kind>>: target reacts to m's lifecycle event (start_events / stop_events)
           MaxOps, Deviations
-VARIABLES phase, nops, act
-vars == <<phase, nops, act>>
-Init == phase = [m \in Modes |-> "stopped"] /\ nops = 0 /\ act = [op |-> "init"]
+VARIABLES phase, rp, nops, act
+\* rp[m]: the running priority was given explicitly by the accepted start request (TRUE) or is the configured one
+vars == <<phase, rp, nops, act>>
+Init == phase = [m \in Modes |-> "stopped"] /\ rp = [m \in Modes |-> FALSE] /\ nops = 0 /\ act = [op |-> "init"]
 \* effect of a start / stop request on one mode's phase: set of possible outcomes
 StartOutcomes(p) == IF p = "stopped" THEN {"s1"} ELSE IF p = "t3" THEN {"t3", "t3s"} ELSE {p}
 StopOutcomes(p) == IF p = "active" THEN {"t1"} ELSE IF p = "s3" THEN {"s3", "s3t"} ELSE {p}
-ReqStart(m) == /\ nops < MaxOps /\ nops' = nops + 1
-               /\ \E q \in StartOutcomes(phase[m]) : phase' = [phase EXCEPT ![m] = q]
-               /\ act' = [op |-> "req", m |-> m, kind |-> "start"]
+\* alt: the request carries an explicit mode_priority.  Only an ACCEPTED start decides the running priority
+ReqStart(m, alt) == /\ nops < MaxOps /\ nops' = nops + 1
+                    /\ \E q \in StartOutcomes(phase[m]) :
+                          /\ phase' = [phase EXCEPT ![m] = q]
+                          /\ rp' = IF q # phase[m] THEN [rp EXCEPT ![m] = alt] ELSE rp
+                    /\ act' = [op |-> "req", m |-> m, kind |-> "start", alt |-> alt]
 ReqStop(m) == /\ nops < MaxOps /\ nops' = nops + 1
               /\ \E q \in StopOutcomes(phase[m]) : phase' = [phase EXCEPT ![m] = q]
-              /\ act' = [op |-> "req", m |-> m, kind |-> "stop"]
+              /\ UNCHANGED rp /\ act' = [op |-> "req", m |-> m, kind |-> "stop"]
 NextPhase(p, name) ==
     CASE p = "s1" /\ name = "will_start" -> "s2"
       [] p = "s2" /\ name = "starting" -> "s3"
@@ -47,9 +51,12 @@ React(ph, S) == IF S = {} THEN {ph}
 \* a lifecycle event of m is delivered: it must be the next one of its cycle
 Ev(m, name) == /\ NextPhase(phase[m], name) # "bad"
                /\ phase' \in React([phase EXCEPT ![m] = NextPhase(phase[m], name)], {r \in Auto : r[1] = m /\ r[2] = name})
+               \* a start triggered by a configured start event runs at the configured priority
+               /\ rp' = [x \in Modes |-> IF phase'[x] \in {"s1", "t3s"} /\ phase[x] \notin {"s1", "t3s"} /\ (x # m \/ NextPhase(phase[m], name) # phase'[x])
+                                          THEN FALSE ELSE rp[x]]
                /\ act' = [op |-> "ev", m |-> m, name |-> name] /\ UNCHANGED nops
 Names == {"will_start", "starting", "started", "will_stop", "stopping", "stopped"}
-Next == \E m \in Modes : ReqStart(m) \/ ReqStop(m) \/ \E n \in Names : Ev(m, n)
+Next == \E m \in Modes : (\E alt \in BOOLEAN : ReqStart(m, alt)) \/ ReqStop(m) \/ \E n \in Names : Ev(m, n)
 Spec == Init /\ [][Next]_vars
 Fair == \A m \in Modes, n \in Names : WF_vars(Ev(m, n))
 LiveSpec == Spec /\ Fair
@@ -57,8 +64,10 @@ LiveSpec == Spec /\ Fair
 AtRest == \A m \in Modes : phase[m] \in {"stopped", "active"}
 ActiveSet == {m \in Modes : phase[m] = "active"}
 \* the list of active modes: exactly the active ones, ordered by (priority, name) descending
+AltBoost == 7
+EffPrio(m) == IF rp[m] THEN Prio[m] + AltBoost ELSE Prio[m]
 Sorted(seq) == \A i, j \in DOMAIN seq : i < j =>
-                   (Prio[seq[i]] > Prio[seq[j]] \/ (Prio[seq[i]] = Prio[seq[j]] /\ seq[i] # seq[j]))
+                   (EffPrio(seq[i]) > EffPrio(seq[j]) \/ (EffPrio(seq[i]) = EffPrio(seq[j]) /\ seq[i] # seq[j]))
 \* every accepted start eventually becomes active, every accepted stop eventually completes
 Progress == \A m \in Modes : [](phase[m] \notin {"stopped", "active"} => <>(phase[m] \in {"stopped", "active"}))
 \* the five modes of /verif/machines/modes
